@@ -462,14 +462,19 @@ func (r *patchRunner) Apply(filename string, f *ast.File) (fout *ast.File, comme
 			}
 
 			snap = snap.Diff(fout, cl)
-			cleanupFilePos(r.fset.File(fout.Pos()), cl, fout.Comments)
+			fout.Comments = cleanupFilePos(r.fset.File(fout.Pos()), cl, fout.Comments)
 		}
 	}
 
 	return fout, comments, matched
 }
 
-func cleanupFilePos(tfile *token.File, cl engine.Changelog, comments []*ast.CommentGroup) {
+// cleanupFilePos removes the comments inside the changed regions and merges
+// the lines they spanned. It returns the comment groups that still hold
+// comments: a group emptied here must not stay in the file (an empty
+// ast.CommentGroup has no position, and code that walks the file's comments,
+// for example to add an import in a later change, panics on it).
+func cleanupFilePos(tfile *token.File, cl engine.Changelog, comments []*ast.CommentGroup) []*ast.CommentGroup {
 	linesToDelete := make(map[int]struct{})
 	for _, dr := range cl.ChangedIntervals() {
 		if dr.Start == token.NoPos {
@@ -503,4 +508,12 @@ func cleanupFilePos(tfile *token.File, cl engine.Changelog, comments []*ast.Comm
 	for i := len(lines) - 1; i >= 0; i-- {
 		tfile.MergeLine(lines[i])
 	}
+
+	kept := comments[:0]
+	for _, cg := range comments {
+		if len(cg.List) > 0 {
+			kept = append(kept, cg)
+		}
+	}
+	return kept
 }
